@@ -250,3 +250,112 @@ Theorem C04_chunk_machine :
       forall s, loaded s (le_bytes 2 h) -> ostate_eq (run_n 1 s) (step ins 2 s).
 Proof. exact chunk_corr_machine. Qed.
 Print Assumptions C04_chunk_machine.
+
+(* ---- ... with `call L` / `tail L` ------------------------------------------------------------------------------------------------
+   Class (calls_programb, Proofs/CompressCalls.v): every item is in the class of C04_program_transfers (ext_programb) OR is
+   `IPseudo "call" [L]` / `IPseudo "tail" [L]` with L NOT A CONSTANT of the run; and (regs_plain) none of the register names the templates of
+   call / tail write -- x0, x1, x6 -- is the name of a constant of the run (resolve_register_aliases would replace it by the constant's value;
+   constants DEFINED in the program cannot have such names, constants handed in as c0 could).
+   The two runs may render a call / tail item DIFFERENTLY (ex04c below: the pair auipc + jalr without, ONE jal with compression), so for these
+   items the correspondence is semantic (item_corr_c / lands_ct): with q the value of L in the label table OF THAT RUN and p the offset the item
+   stands at IN THAT RUN, the chunks of the item, all carrying its line, are
+       the 4 bytes of a word w, decode32 w = Some (Jal link (q - p)),                                       or
+       (compressed run only) the 2 bytes of a legal halfword h, decode16 h = Some ci, expand_c ci = Jal link (q - p)   (c.jal / c.j),   or
+       the 4 + 4 bytes of w1, w2: decode32 w1 = Some (Auipc scratch hi), decode32 w2 = Some (Jalr link scratch lo),
+                                  (p + hi * 4096 + lo) mod 2^32 = q mod 2^32
+   with link = 1 (x1), scratch = 1 for call; link = 0, scratch = 6 (x6) for tail: each run transfers control to ITS value of L and writes
+   only the documented link / scratch register (C05_call_tail_near, C05_call_far, C05_tail_far give the effect on the Spec machine).
+   Every other item: as in C04_program_transfers (item_corr_x).  No hypothesis on the size of the program or the distance is needed: the
+   statement holds for whichever rendering each run chose.  As before BOTH runs are assumed to succeed. *)
+From BB Require Import Proofs.CompressCalls.
+Theorem C04_program_calls :
+  forall its c0 rU rC,
+    nonneg its -> calls_programb (r_consts rU) its = true -> regs_plain (r_consts rU) = true ->
+    assemble_items its c0 [] false = Done rU -> assemble_items its c0 [] true = Done rC ->
+    corr_c (r_labels rU) (r_labels rC) 0 0 its (r_chunks rU) (r_chunks rC).
+Proof. exact program_calls. Qed.
+Print Assumptions C04_program_calls.
+
+(* non-vacuity: fn: / addi x8, x8, 4 / include_bytes gap.bin (1048570 bytes) / addi x8, x8, 4 / call fn / call nr / tail fn / nr: / tail nr.
+   `call fn` stands at 1048578 without compression (distance -1048578, out of reach of jal: auipc x1, -256 ; jalr x1, x1, -2) and at 1048574
+   with compression (jal x1, -1048574): the MIXED case;  `call nr` is jal x1 resp. c.jal;  `tail fn` is auipc x6 + jalr x0, x6 in both runs;
+   `tail nr` is jal x0 resp. c.j *)
+Example C04_program_calls_example :
+  nonneg ex04c /\ calls_programb [] ex04c = true /\ regs_plain [] = true /\
+  assemble_items ex04c [] [] false = Done {| r_chunks := ex04c_chunksU; r_consts := []; r_labels := [("fn", 0); ("nr", 1048598)] |}%string /\
+  assemble_items ex04c [] [] true = Done {| r_chunks := ex04c_chunksC; r_consts := []; r_labels := [("fn", 0); ("nr", 1048588)] |}%string /\
+  corr_c [("fn", 0); ("nr", 1048598)]%string [("fn", 0); ("nr", 1048588)]%string 0 0 ex04c ex04c_chunksU ex04c_chunksC /\
+  decode32 (151 + 0 * 256 + 240 * 65536 + 255 * 16777216) = Some (Auipc 1 (-256)) /\
+  decode32 (231 + 128 * 256 + 224 * 65536 + 255 * 16777216) = Some (Jalr 1 1 (-2)) /\
+  decode32 (239 + 0 * 256 + 32 * 65536 + 128 * 16777216) = Some (Jal 1 (-1048574)).
+Proof.
+  exact (conj ex04c_nonneg (conj (proj1 ex04c_class) (conj (proj2 ex04c_class) (conj (proj1 ex04c_runs) (conj (proj2 ex04c_runs)
+          (conj ex04c_corr ex04c_mixed)))))).
+Qed.
+
+(* regs_plain is a condition on the constants HANDED IN: the constants pass refuses to define a register name, so the final table has
+   x0 / x1 / x6 only if the initial one had; with no constants handed in (c0 = []) the hypothesis of C04_program_calls holds *)
+Theorem C04_regs_plain :
+  forall its c0 l0 cmp r, nonneg its -> assemble_items its c0 l0 cmp = Done r -> regs_plain c0 = true -> regs_plain (r_consts r) = true.
+Proof. exact regs_plain_run. Qed.
+Print Assumptions C04_regs_plain.
+Theorem C04_program_calls_no_given_constants :
+  forall its rU rC,
+    nonneg its -> calls_programb (r_consts rU) its = true ->
+    assemble_items its [] [] false = Done rU -> assemble_items its [] [] true = Done rC ->
+    corr_c (r_labels rU) (r_labels rC) 0 0 its (r_chunks rU) (r_chunks rC).
+Proof. exact program_calls_noconsts. Qed.
+Print Assumptions C04_program_calls_no_given_constants.
+
+(* what the call / tail case of the correspondence means on the Spec machine (Spec/Sem.v, fetching machine run_n), for BOTH runs: with
+   qU / qC the value of L in the label table of the uncompressed / compressed run, the bytes of the item's chunks loaded at the pc
+   (ct_effect, Proofs/CompressCallsSem.v)
+     - one step (jal / c.jal / c.j):  pc <- pc + (q - p);  only the link register is written (x1 for call; nothing at all for tail:
+       only_reg .. 0 ..) and receives pc + length of the item (4 or 2);
+     - two steps (auipc ; jalr):  pc <- pc + (q - p) with bit 0 cleared;  call: only x1 is written, x1 <- pc + 8;  tail: only the scratch
+       register x6 is written.
+   (q - p) is the distance from the item to the label in THAT run's layout: loaded at base + p, control arrives at base + q. *)
+From BB Require Import Proofs.CompressCallsSem.
+Theorem C04_call_machine :
+  forall labU labC pU pC x cU cC name L,
+    call_of (snd x) = Some (name, L) -> item_corr_c labU labC pU pC x cU cC ->
+    exists qU qC, assoc_str L labU = Some qU /\ assoc_str L labC = Some qC /\ ct_effect name qU pU cU /\ ct_effect name qC pC cC.
+Proof. exact item_corr_c_effect. Qed.
+Print Assumptions C04_call_machine.
+
+(* regs_plain cannot be dropped from C04_program_calls: a: / call a  assembled with the constant x1 = 5 HANDED IN (the `constants=` argument of
+   assemble(); the command line cannot do that) is in the class and assembles in both modes to  jal x5, 0  (ef 02 00 00; the real assembler
+   agrees): the link register is not x1, the correspondence with link = x1 fails.  Both modes agree with each other. *)
+Theorem C04_program_calls_without_regs_plain_refuted :
+  calls_programb [("x1", 5)]%string ex04s = true /\ regs_plain [("x1", 5)]%string = false /\
+  assemble_items ex04s [("x1", 5)]%string [] false = Done {| r_chunks := ex04s_chunks; r_consts := [("x1", 5)]; r_labels := [("a", 0)] |}%string /\
+  assemble_items ex04s [("x1", 5)]%string [] true = Done {| r_chunks := ex04s_chunks; r_consts := [("x1", 5)]; r_labels := [("a", 0)] |}%string /\
+  decode32 (239 + 2 * 256) = Some (Jal 5 0) /\
+  ~ corr_c [("a", 0)]%string [("a", 0)]%string 0 0 ex04s ex04s_chunks ex04s_chunks.
+Proof.
+  destruct ex04s_runs as (A & B & C & D & E). exact (conj A (conj B (conj C (conj D (conj E ex04s_refuted))))).
+Qed.
+Print Assumptions C04_program_calls_without_regs_plain_refuted.
+
+(* the DIRECTION of the mixed case.  With no labels handed in and a program below 2 GiB (total its < 2^31: the hypotheses of C12 / C20, under
+   which the estimated distances of the two pseudo-instruction passes can be compared: Proofs/Monotone.v pair_step, followed item by item in
+   Proofs/CompressCallsMono.v) the correspondence of C04_program_calls holds (corr_m implies corr_c) AND for every call / tail item the chunks
+   of the compressed run are not longer than those of the uncompressed run (item_corr_m: clen cC <= clen cU; the lengths are 4 / 8 without and
+   2 / 4 / 8 with compression): the one-instruction form without compression never faces the pair auipc + jalr with compression -- the only
+   mixed case is far without / near with compression (ex04c). *)
+From BB Require Import Proofs.CompressCallsMono.
+Theorem C04_program_calls_never_longer :
+  forall its c0 rU rC,
+    nonneg its -> calls_programb (r_consts rU) its = true -> regs_plain (r_consts rU) = true -> total its < 2 ^ 31 ->
+    assemble_items its c0 [] false = Done rU -> assemble_items its c0 [] true = Done rC ->
+    corr_m (r_labels rU) (r_labels rC) 0 0 its (r_chunks rU) (r_chunks rC).
+Proof. exact program_calls_sized. Qed.
+Print Assumptions C04_program_calls_never_longer.
+Theorem C04_corr_m_implies_corr_c :
+  forall labU labC pU pC its cU cC, corr_m labU labC pU pC its cU cC -> corr_c labU labC pU pC its cU cC.
+Proof. exact corr_m_c. Qed.
+Print Assumptions C04_corr_m_implies_corr_c.
+Example C04_program_calls_never_longer_example :
+  total ex04c < 2 ^ 31 /\
+  corr_m [("fn", 0); ("nr", 1048598)]%string [("fn", 0); ("nr", 1048588)]%string 0 0 ex04c ex04c_chunksU ex04c_chunksC.
+Proof. split. vm_compute; reflexivity. exact ex04c_corr_m. Qed.
